@@ -109,26 +109,35 @@ class ParserSessionProp(object):
         from depsim import gen
         rng = gen.stream(seed, self.id + ':stress', index)
         nprng = gen.np_stream(rng)
+        import numpy
         sentences = []
         xl = tier == 'thorough'
-        # thorough tier: four different six-word sentences over a larger category space share one call, so that the
-        # call's rule cache passes 2^20 entries while a later one is being searched
-        lengths = [6, 6, 6, 6, 6, 2] if xl else [6, 2]
+        # thorough tier: four six-word sentences with their own four lexical categories each share one call.  The
+        # hashed categories they derive differ, so each adds ~4*10^5 new keys to the call's rule cache, which passes
+        # 2^20 entries in the middle of the search of the third one (with one shared lexicon every sentence walks the
+        # same closed set of keys and the cache stops growing after the first)
+        lengths = [6, 6, 6, 6, 2] if xl else [6, 2]
+        n_lex = 4 * len(lengths) if xl else 4
         for sid, n in enumerate(lengths):
             tag, dep = gen.make_scores(nprng, rng, n, 4, 'continuous')
+            if xl:
+                wide = numpy.full((n, n_lex), -100.0, dtype=numpy.float32)
+                wide[:, 4 * sid:4 * sid + 4] = tag
+                tag = wide
             if n > 2:
                 # a very improbable root attachment: every complete parse has a low priority, so the search
                 # visits almost the whole space (and fills the cache) before it pops its first goal item
                 dep[:, 0] = -50.0
             sentences.append({'words': [f's{sid}x{i}' for i in range(n)], 'tag': gen.arr_to_hex(tag),
                               'dep': gen.arr_to_hex(dep), 'style': 'continuous', 'rich': False, 'favoured': None})
-        modulus = 20000 if xl else 3000
+        modulus = 3000
+        cats = [f'{c}{k}' for k in range(len(lengths)) for c in 'ABCD'] if xl else ['A', 'B', 'C', 'D']
         wspec = {'family': 'stress',
                  'grammar': {'kind': 'explosive', 'modulus': modulus, 'salt': rng.getrandbits(20),
                              'fanout': 2,      # two hashed results per pair: > 10^6 pops and agenda entries for six words
-                             'categories': ['A', 'B', 'C', 'D'], 'roots': [f'H{k}' for k in range(modulus)], 'lang': 'en'},
+                             'categories': cats, 'roots': [f'H{k}' for k in range(modulus)], 'lang': 'en'},
                  'sentences': sentences}
-        op = {'op': 'call', 'batch': [0, 1, 2, 3, 4, 5] if xl else [0, 1, 0], 'processes': 1, 'max_chunk_size': 20, 'unary_penalty': 0.1,
+        op = {'op': 'call', 'batch': [0, 1, 2, 3, 4] if xl else [0, 1, 0], 'processes': 1, 'max_chunk_size': 20, 'unary_penalty': 0.1,
               'beta': 1e-5, 'use_beta': False, 'pruning_size': 4, 'nbest': 1, 'max_step': 3000000, 'max_length': 250}
         return {'prop': self.id, 'seed': seed, 'index': index, 'world': wspec, 'ops': [op],
                 'knobs': {'family': 'stress', 'fault_class': 'none', 'nbest': 1}, 'executor': 'inprocess'}
